@@ -59,6 +59,11 @@ async def check_expression(ctx, case, async_budget=12):
         ctx.count("async_evaluations")
         expected = logic.OUTCOME[logic.ref_eval(ast, asg)]
         world = H.world_for(ast, asg, hints_sync=rng.random() < 0.3)
+        if rng.random() < 0.3:
+            # the EvaluatableDataProvider is a context manager (python-inject enters it around the injected call): the data are released
+            # when the function they were injected into returns - the evaluators must have run by then
+            world.data_as_context_manager = True
+            ctx.count("async_evaluations_with_context_managed_data")
         # half of them with every harness awaitable parked and released in a random order (the semantics must not depend on it)
         scheduler = sched.Sched(sched.RandomChooser(rng)) if rng.random() < 0.5 else None
         if scheduler is not None:
@@ -71,6 +76,43 @@ async def check_expression(ctx, case, async_budget=12):
         got = (res.requirement_constraints_fulfilled, res.requirement_is_conditional)
         if got != expected:
             ctx.violation("outcome-mapping", f"{s!r} under {asg}: (fulfilled, conditional) = {got}, documented mapping of state {logic.NAME[logic.ref_eval(ast, asg)]} is {expected}", case=case)
+
+
+async def check_neutral_outcomes(ctx, case):
+    """a user requirement evaluator may answer NEUTRAL (documented outcome of an evaluation method): and-compositions of requirement
+    constraints and hints under assignments over all FOUR states, through the async API with the harness evaluator"""
+    ast, s = case["ast"], case["s"]
+    ctx.set_case("neutral-outcomes", case)
+    rng = ctx.case_rng(case)
+    rcs = G.keys_of(ast, "rc")
+    asgs = case.get("assignments") or [a for a in logic.assignments(rcs, ("F", "U", "K", "N")) if "N" in a.values()]
+    if len(asgs) > 12:
+        asgs = rng.sample(asgs, 12)
+    for asg in asgs:
+        ctx.evaluation()
+        ctx.count("evaluations_with_neutral_requirement_outcome")
+        state = logic.ref_eval(ast, asg)
+        expected = logic.OUTCOME[state]
+        aout = await H.async_requirement(s, H.world_for(ast, asg), sched.Sched(sched.RandomChooser(rng)) if rng.random() < 0.5 else None)
+        wcase = dict(case, assignments=[asg])
+        if aout[0] != "ok":
+            ctx.violation(f"evaluation-raises-{type(aout[1]).__name__}", f"requirement_constraint_evaluation({s!r}) under {asg} (NEUTRAL answered by the user's evaluator) {describe(aout)[:300]}", case=wcase)
+            continue
+        got = (aout[1].requirement_constraints_fulfilled, aout[1].requirement_is_conditional)
+        if got != expected:
+            ctx.violation("outcome-mapping", f"{s!r} under {asg} (NEUTRAL answered by the user's evaluator): (fulfilled, conditional) = {got}, documented mapping of state {logic.NAME[state]} is {expected}", case=wcase)
+
+
+def gen_and_only(rng):
+    n = rng.randint(1, 4)
+    leaves = [["rc", k] for k in rng.sample(G.RC_POOL, min(n, len(G.RC_POOL)))]
+    if rng.random() < 0.4:
+        leaves.append(["hint", rng.choice(G.HINT_POOL)])
+    rng.shuffle(leaves)
+    ast = leaves[0]
+    for leaf in leaves[1:]:
+        ast = ["and", ast, leaf] if rng.random() < 0.5 else ["and", leaf, ast]
+    return {"ast": ast, "s": G.render(ast, rng)}
 
 
 def make_case(rng, depth, pools, max_leaves):
@@ -99,6 +141,8 @@ async def run(ctx):
                 await check_shipped(ctx, case)
             if i % 300 == 0:
                 ctx.sample({"s": case["s"], "rc_keys": G.keys_of(case["ast"], "rc")}, cls="expression")
+        for i in range(ctx.budget(150, 15_000)):
+            await check_neutral_outcomes(ctx, gen_and_only(rng))
         # ---- small scope, complete: EVERY valid expression with up to 3 (thorough: 4) leaves over {[1], [2], [501], [901], [902]} x all assignments
         idx = 0
         for n in range(1, (3 if ctx.quick else 4) + 1):
@@ -123,7 +167,11 @@ async def check_shipped(ctx, case):
     # mode by mode, the assignments one after the other: consecutive messages through the same evaluator instances / the same data object
     for mode in ("hardcoded", "cer", "cer-long-lived", "instances"):
         for asg in asgs:
-            cer = E.make_cer(asg, {k: True for k in G.keys_of(ast, "fc")}, hints)
+            built = capture(E.make_cer, asg, {k: True for k in G.keys_of(ast, "fc")}, hints)
+            if built[0] != "ok":
+                ctx.violation(f"content-evaluation-result-rejected-{type(built[1]).__name__}", f"a ContentEvaluationResult for {s!r} with the requirement constraints {asg} cannot be built: {describe(built)[:300]} (every key the expression language classifies as requirement constraint can carry an outcome)", case=dict(case, assignments=asgs))
+                return
+            cer = built[1]
             expected = logic.OUTCOME[logic.ref_eval(ast, asg)]
             ctx.evaluation()
             ctx.count("evaluations_with_shipped_evaluators")
@@ -141,6 +189,9 @@ async def check_shipped(ctx, case):
 
 async def replay(ctx, phase, case):
     E.install()
+    if phase == "neutral-outcomes":
+        await check_neutral_outcomes(ctx, case)
+        return
     if phase == "shipped":
         await check_shipped(ctx, case)
     else:
